@@ -339,6 +339,15 @@ def judge(case, res):
                 if ok[0] != 'ok':
                     res.count('rest_of_program_invalid')
                     return
+            if case['cls'] == 'mutated':
+                # a mutation can leave a VALID line behind (`jal x31, FO` -> `jal FO`): then the refusal is the business of some other,
+                # layout-dependent line that the stand-in (of another size under -c) hides from the pre-check above.  The planted
+                # line counts as a fault only if it is refused on its own, next to the program's label and constant definitions.
+                defs = [ln for ln in c14.flatten(case['root']) if ln != case['fault'] and (re.fullmatch(r'\s*[^\s#]+:\s*', ln) or re.fullmatch(r'\s*[A-Za-z_]\w* = .*', ln))]
+                alone = '\n'.join(defs + [case['fault']]) + '\n'
+                if all(progcheck.assemble(a, alone, cm)[0] == 'ok' for cm in (False, True)):
+                    res.count('mutated_line_is_valid')
+                    return
             res.count('refused:' + case['cls'])
             if not isinstance(exc, a.AssemblerError):
                 raise env.CaseFailure('raw:%s:%s' % (progcheck.exc_sig(exc), sig_tail),
